@@ -547,3 +547,30 @@ def mutate(b, im, rng, k=None):
             b = b[:cut]
             desc.append("truncate=%d" % cut)
     return bytes(b), desc
+
+
+def corrupt_table_words(b, im, rng, types=None):
+    """Overwrite 16/32/64-bit words inside the data of table sections (hash, GNU hash, version, relocation,
+    symbol, dynamic, note) with boundary values: zero buckets, huge counts, chains and offsets that point outside."""
+    b = bytearray(b)
+    e = E(im.enc)
+    cand = [s for s in im.sections if s.get("data") and (types is None or s["type"] in types) and len(s["data"]) >= 4]
+    desc = []
+    if not cand:
+        return bytes(b), desc
+    for _ in range(rng.randint(1, 3)):
+        s = rng.choice(cand)
+        n = len(s["data"])
+        wd = rng.choice([4, 4, 4, 2, 8])
+        if n < wd:
+            continue
+        # the first few words of a table are its header (counts, offsets): aim there more often
+        k = rng.choice([0, 1, 2, 3, 4, 5]) if rng.random() < 0.6 else rng.randrange(0, n // wd)
+        k = min(k, n // wd - 1)
+        v = rng.choice([0, 1, 2, 3, n // 4, n // 4 + 1, n, n + 1, 0x7fffffff, 0x80000000, 0xffffffff, 0xfffffff0,
+                        2**63, 2**64 - 1, rng.getrandbits(8 * wd)]) % (2**(8 * wd))
+        off = s["offset"] + k * wd
+        if off + wd <= len(b):
+            b[off:off + wd] = struct.pack(e + {2: "H", 4: "I", 8: "Q"}[wd], v)
+            desc.append("%s[%d:%d]=%d" % (s["sname"].decode("latin1"), k, wd, v))
+    return bytes(b), desc
